@@ -1,6 +1,6 @@
 (* C13 - Remote and command caches store complete artifacts or nothing.
    This file holds only the statement, the property theorems and their non-vacuity examples. *)
-From PlzV Require Import Base.Harness Gen.C13Exits Model.C13 Proof.C13.
+From PlzV Require Import Base.Harness Gen.C13Exits Model.C13 Proof.C13 Proof.C13_Vanish.
 Local Open Scope N_scope.
 
 (* For every output directory `root` and every list of declared outputs (files, symlinks,
@@ -92,6 +92,50 @@ Theorem C13_leftover :
 Proof. exact (conj read_tar_leftover cut_shape). Qed.
 Print Assumptions C13_leftover.
 
+(* An entry that vanishes DURING the store.  Number the nodes of the declared outputs in the order
+   fs.Walk visits them (a directory, then its children by name, depth first, through the whole
+   list); `vanish_list files i` is `files` with node i - a declared output, or an entry at any
+   depth inside a directory output that was listed with its directory - gone when the archive
+   writer reaches it.  For ALL intact output lists and EVERY such position: the writer emits
+   exactly the i members in front of it and reports the error; the HTTP store leaves the server
+   as it was and every retrieve of the key is a miss; the command cache sends its store command
+   exactly those i members followed by the end-of-archive marker, so the defect class of
+   C13_refuted is met exactly by the store commands that keep all of that short archive, and a
+   store command that publishes nothing when killed gives a miss. *)
+Theorem C13_vanish :
+  forall (files : list tree) (i : nat), all_healthy files = true -> (i < size_list files)%nat ->
+    write (vanish_list files i) = (firstn i (fst (write files)), false)
+    /\ (forall server put_ok, http_store server (vanish_list files i) put_ok = server)
+    /\ (forall root put_ok g, http_retrieve root (http_store None (vanish_list files i) put_ok) g [] = (false, []))
+    /\ cmd_sent (vanish_list files i) = firstn i (fst (write files)) ++ footer
+    /\ (forall commit, cmd_defect (vanish_list files i) commit =
+          match commit with Some k => bytes (firstn i (fst (write files)) ++ footer) <=? k | None => false end)
+    /\ (forall root rcut exit_ok,
+          cmd_retrieve root (cmd_store None (vanish_list files i) None) rcut exit_ok [] = (false, [])).
+Proof.
+  exact (fun files i Hh Hi =>
+    conj (vanish_write files i Hh Hi)
+   (conj (fun server put_ok => http_vanish_leaves_nothing files i server put_ok Hh Hi)
+   (conj (fun root put_ok g => http_vanish_is_miss root files i put_ok g Hh Hi)
+   (conj (cmd_vanish_sent files i Hh Hi)
+   (conj (fun commit => cmd_vanish_defect files i commit Hh Hi)
+         (fun root rcut exit_ok => cmd_vanish_atomic_is_miss root files i rcut exit_ok Hh Hi)))))).
+Qed.
+Print Assumptions C13_vanish.
+
+(* Why the walk has to halt on such an entry (what C13_vanish rests on is regenerated from
+   src/fs/walk.go: fs.WalkMode gives godirwalk no ErrorCallback).  With an ErrorCallback that
+   skips entries which no longer exist, for every directory output, every entry position in it
+   and all intact siblings: the writer produces, and reports as a success, the complete archive
+   of the directory WITHOUT the vanished entry - although an output could not be read. *)
+Theorem C13_walk_must_halt :
+  forall n m l1 l2, forallb healthy (l1 ++ l2) = true ->
+    write_a WSkipEnoent [TDir n (l1 ++ TMissing m :: l2)] = write [TDir n (l1 ++ l2)]
+    /\ snd (write [TDir n (l1 ++ l2)]) = true
+    /\ all_healthy [TDir n (l1 ++ TMissing m :: l2)] = false.
+Proof. exact skip_enoent_publishes. Qed.
+Print Assumptions C13_walk_must_halt.
+
 (* ---- non-vacuity ---- *)
 Definition ex_files : list tree :=
   [TFile (s "o/a.txt") (s "aaa");
@@ -136,3 +180,28 @@ Example C13_leftover_nonvacuous :
   http_retrieve (s "o") (http_store None ex_files true) (GetCut 2148) []
   = (false, [(s "o/d/x", NFile (rep 100 120)); (s "o/d", NDir); (s "o/a.txt", NFile (s "aaa"))]).
 Proof. vm_compute. reflexivity. Qed.
+
+(* walk positions of ex_files: 0 o/a.txt, 1 o/d, 2 o/d/x, 3 o/d/z.  Position 2 is inside the
+   directory output: the writer stops after o/a.txt and o/d; nothing reaches the HTTP server; the
+   command cache's store command is sent those two members and the end marker (2560 bytes), and
+   one that keeps them gives a hit without o/d/x and o/d/z (the defect class). *)
+Example C13_vanish_nonvacuous :
+  all_healthy ex_files = true /\ size_list ex_files = 4%nat
+  /\ vanish_list ex_files 2 =
+       [TFile (s "o/a.txt") (s "aaa"); TDir (s "o/d") [TMissing (s "o/d/x"); TLink (s "o/d/z") (s "x")]]
+  /\ names (fst (write (vanish_list ex_files 2))) = [s "o/a.txt"; s "o/d"]
+  /\ http_store None (vanish_list ex_files 2) true = None
+  /\ bytes (cmd_sent (vanish_list ex_files 2)) = 2560
+  /\ cmd_defect (vanish_list ex_files 2) (Some 2560) = true
+  /\ (let r := cmd_retrieve (s "o") (cmd_store None (vanish_list ex_files 2) (Some 2560)) None true [] in
+      fst r = true /\ lookup (s "o/d/z") (snd r) = None).
+Proof. vm_compute. repeat split; reflexivity. Qed.
+
+(* the skipping walk on the same input: a well-formed archive of everything but o/d/x, which a
+   retrieve unpacks as a hit - o/d/z (behind the vanished entry) is there, o/d/x is not *)
+Example C13_walk_must_halt_nonvacuous :
+  let '(st, ok) := write_a WSkipEnoent (vanish_list ex_files 2) in
+  ok = true /\ names st = [s "o/a.txt"; s "o/d"; s "o/d/z"]
+  /\ (let r := read_tar (s "o") (st ++ footer) true [] in
+      fst r = true /\ lookup (s "o/d/x") (snd r) = None /\ lookup (s "o/d/z") (snd r) = Some (NLink (s "x"))).
+Proof. vm_compute. repeat split; reflexivity. Qed.
